@@ -700,3 +700,44 @@ class TLSort(ListMutator):
 
     def reference(self, cx, I, ov, info):
         return [], self.run_builtin(I, info, "sort", [], dict(info["kw"]))
+
+
+@register
+class TLInit(TLExtend):
+    """TraitList(iterable, item_validator=..., notifiers=...): construction is the empty list extended by the VALIDATED items of
+    the iterable, in order; the validator handed in is the one used (and kept); a rejected item propagates its exception; no
+    notification is sent for the initial contents; the notifiers handed in are COPIED into a list of the new object."""
+    qualname = "TraitList.__init__"
+    refop = "extend"
+    overloads = ("validator-and-notifiers-given",)
+
+    def setup(self, cx, I, ov):
+        st, self_ref, s0, V = make_list_self(cx, self.cls)
+        st = st.assume(z3.Length(s0) == 0)                 # a list under construction is empty
+        # the object does not carry its own validator / notifiers yet (class-level defaults apply)
+        h = st.heap[self_ref.oid]
+        given_notifiers = z3.Const("notifiers_given", SeqV)
+        nref = VRef(cx.new_oid())
+        st = st.put(nref.oid, HObj("list", given_notifiers))
+        st = st.put(self_ref.oid, HObj(h.kind, h.payload, h.cls, {}, h.meta))
+        r, S, st = opaque_iterable(cx, st, "iterable")
+        info = dict(S=S, s0=s0, V=V, self_ref=self_ref, given_notifiers=given_notifiers, nref=nref, witness=dict(iterable=S))
+        info["concretise"] = lambda m: None
+        return st, [self_ref, r], {"item_validator": V.as_value(), "notifiers": nref}, info
+
+    def _post(self, cx, I, ov, info, kind, payload, st):
+        # (a constructor that raises hands no object to anybody: what the half-built list holds is unobservable)
+        out = [c for c in ListMutator._post(self, cx, I, ov, info, kind, payload, st) if "event" not in c[0] and "contents-unchanged" not in c[0]]
+        evs = st.ghost["events"]
+        out.append(("post:construction-notifies-nobody" if kind == "return" else "raise:construction-notifies-nobody", z3.BoolVal(len(evs) == 0)))
+        if kind == "return":
+            f = st.heap[info["self_ref"].oid].fields
+            iv = f.get("item_validator")
+            out.append(("post:the-validator-handed-in-is-kept", z3.BoolVal(iv is not None and getattr(iv, "validator", None) is info["V"])))
+            n = f.get("notifiers")
+            ok = isinstance(n, VRef) and n.oid != info["nref"].oid
+            out.append(("post:the-notifiers-are-copied-into-a-list-of-the-new-object", z3.And(z3.BoolVal(bool(ok)), st.heap[n.oid].payload == info["given_notifiers"]) if ok else z3.BoolVal(False)))
+        return out
+
+    def same_result(self, cx, info, payload, st, rp, rst):
+        return z3.BoolVal(True)          # __init__ returns None
